@@ -192,6 +192,12 @@ struct VThread {
   }
   template <class G>
   static void
+  DoMoveAssign(G &dst, G &src)
+  {
+    dst = std::move(src);
+  }
+  template <class G>
+  static void
   DoDtor(G &g)
   {
     std::destroy_at(&g);
@@ -243,14 +249,16 @@ struct VThread {
           if (c.a == kKCG) DoMoveCtor(o.cg[c.b], o.cg[c.c], r);
         }
         break;
-      case kMoveAssign:
-        if (c.a == kKS) s[c.c] = std::move(s[c.b]);
-        if (c.a == kKSIX) six[c.c] = std::move(six[c.b]);
-        if (c.a == kKX) x[c.c] = std::move(x[c.b]);
+      case kMoveAssign: {
+        const int from = c.b, to = c.c;  // (may be equal: self move assignment through two references)
+        if (c.a == kKS) DoMoveAssign(s[to], s[from]);
+        if (c.a == kKSIX) DoMoveAssign(six[to], six[from]);
+        if (c.a == kKX) DoMoveAssign(x[to], x[from]);
         if constexpr (T::kOpt) {
-          if (c.a == kKCG) o.cg[c.c] = std::move(o.cg[c.b]);
+          if (c.a == kKCG) DoMoveAssign(o.cg[to], o.cg[from]);
         }
         break;
+      }
       case kUpgrade: x[c.c] = six[c.b].UpgradeToX(); break;
       case kDowngrade: six[c.c] = x[c.b].DowngradeToSIX(); break;
       case kSetVer:
@@ -658,8 +666,13 @@ class Controller
       case kMoveAssign: {
         auto &src = ms_[t][c.a][c.b];
         auto &dst = ms_[t][c.a][c.c];
-        dst = src;
-        src.own = false;
+        if (c.b != c.c) {
+          dst = src;
+          src.own = false;
+        } else {
+          dst.own = false;  // released before the call was issued; the guard ends up empty
+          sigs_.insert(Fmt("%s:self-move-assignment:%s", T::kName, kKindNames[c.a]));
+        }
         PostRelease(pend_[t].pre_released_lock, r.done_tick);
         break;
       }
@@ -993,9 +1006,9 @@ class Controller
         c.a = static_cast<int>(r_.Below(T::kOpt ? 4 : 3));
         c.b = i;
         c.c = j;
-        if (c.op == kMoveAssign && c.b == c.c) continue;
+        if (c.op == kMoveAssign && c.b == c.c && !r_.Chance(1, 3)) continue;  // self move assignment: rarely
         auto &dst = ms_[t][c.a][c.c];
-        if (c.b != c.c && dst.own && !may_touch(dst.lock)) continue;
+        if ((c.b != c.c || c.op == kMoveAssign) && dst.own && !may_touch(dst.lock)) continue;
         return true;
       }
       if (pick < 62) {
@@ -1099,8 +1112,10 @@ class Controller
       case kReset:
       case kDtor: pre(ms_[t][c.a][c.b]); break;
       case kMoveCtor:
-      case kMoveAssign:
         if (c.b != c.c) pre(ms_[t][c.a][c.c]);
+        break;
+      case kMoveAssign:
+        pre(ms_[t][c.a][c.c]);  // (self move assignment releases the grant as well and leaves the guard empty)
         break;
       case kDowngrade: {
         auto &m = ms_[t][kKX][c.b];
